@@ -63,7 +63,20 @@ fn gen_c06(c: &mut Choices) -> Case {
         }
         let ctx = &CONTEXTS[g.c.pick(CONTEXTS.len())];
         let needy = g.c.chance(1, 2);
-        let node = if needy { needy_node(&mut g) } else { g.node(0) };
+        let mut node = if needy { needy_node(&mut g) } else { g.node(0) };
+        // history: an assignment to a *local* of another scope that is named like this site's sole
+        // identifier child arms the "captured copy of a reassigned variable" path; the copy then
+        // captures the (immutable) imported binding, which is harmless and not the D11 shape
+        if needy && g.c.chance(1, 4) {
+            g.label("captured-copy-armed-by-other-scope-assignment");
+            let name = g.c.choose(&["x", "y"]);
+            items.push(Item::Raw(format!(
+                "function dza{n}() {{\n  let {name};\n  {name} = 1;\n  return {name};\n}}"
+            )));
+            if let Node::El(e) = &mut node {
+                e.children = vec![Child::Expr(Ex::src(name, Cat::IdentBound))];
+            }
+        }
         if needy && ctx.label != "module" {
             non_module_needy = true;
         }
@@ -162,7 +175,7 @@ impl Property for C06 {
         "C06"
     }
     fn rule(&self) -> String {
-        "modules of 1-5 JSX sites, each placed in one of 34 syntactic contexts (module level, function declaration/expression, arrow expression/block body, nested arrows, class field / method / getter / setter / static field / static block, default parameter of arrow and function, object-literal method, IIFE, for-of / for / while / if / try-catch-finally / switch / labelled / nested blocks, generator, async arrow, user-declared inner `_slot` / `_isSlot`) with independent sibling code before, between and after; every site is a random C01-C05 shape or a component with a call / identifier child (needs a temporary and the slot helper); expressions may reference user bindings named like generated ones (_createVNode, _slot, _isSlot, _Fragment, _mergeProps, s, $event, ...). Oracle: (a) free variables of the printed output (re-parse + resolver) within free variables of the input plus the pragma; (b) every generated identifier (syntax context absent from the input) occurs at least twice in the raw output (declared and used); (c) the module evaluates and a driver enters every context (calls every exported thunk, constructs every class and touches its members, fires every v-model listener) without ReferenceError / TDZ / redeclaration / TypeError; (d) canonical values equal the reference lowering's, which sees the user's sentinels (no capture). non-trivial = a temporary/helper-needing lowering outside module level, or >=2 distinct contexts, or a colliding user name; distinct by hash(source, options, env)".into()
+        "modules of 1-5 JSX sites, each placed in one of 34 syntactic contexts (module level, function declaration/expression, arrow expression/block body, nested arrows, class field / method / getter / setter / static field / static block, default parameter of arrow and function, object-literal method, IIFE, for-of / for / while / if / try-catch-finally / switch / labelled / nested blocks, generator, async arrow, user-declared inner `_slot` / `_isSlot`) with independent sibling code before, between and after; every site is a random C01-C05 shape or a component with a call / identifier child (needs a temporary and the slot helper); a site may be preceded by an assignment to a same-named local of another scope (arms the captured-copy path without the D11 shape); expressions may reference user bindings named like generated ones (_createVNode, _slot, _isSlot, _Fragment, _mergeProps, s, $event, ...). Oracle: (a) free variables of the printed output (re-parse + resolver) within free variables of the input plus the pragma; (b) every generated identifier (syntax context absent from the input) occurs at least twice in the raw output (declared and used); (c) the module evaluates and a driver enters every context (calls every exported thunk, constructs every class and touches its members, fires every v-model listener) without ReferenceError / TDZ / redeclaration / TypeError; (d) canonical values equal the reference lowering's, which sees the user's sentinels (no capture). non-trivial = a temporary/helper-needing lowering outside module level, or >=2 distinct contexts, or a colliding user name; distinct by hash(source, options, env)".into()
     }
     fn assumptions(&self) -> Vec<String> {
         vec![
@@ -209,6 +222,7 @@ impl Property for C06 {
             "ctx=user-inner-_slot",
             "needs-temporary-or-helper",
             "colliding-user-name",
+            "captured-copy-armed-by-other-scope-assignment",
         ]
     }
 }
